@@ -7,7 +7,7 @@ From TL Require Import Model.Str Model.Rpn Model.Table Model.Eval Model.Pipeline
   Proofs.Table_inv Proofs.Table_remove Proofs.Table_set Proofs.Table_history Proofs.Table_xhistory
   Proofs.Rpn_parse Proofs.Eval_sem Proofs.Eval_machine Proofs.Eval_top Proofs.Eval_operate.
 
-(* after ANY history of create / remove / "#DELETE" / addListToAF / update / bracket assignment / single-observation assignment
+(* after ANY history of create / remove / "#DELETE" / addListToAF / update / bracket assignment / single-observation assignment / function-computed feature
    (raising calls included: they leave the track unchanged), the alignment invariant holds and the track keeps its size *)
 Theorem C01_history_invariant ops : forall t, Inv t -> forallb (xvalid (Table.size t)) ops = true ->
   Inv (fold_left xstep ops t) /\ Table.size (fold_left xstep ops t) = Table.size t.
